@@ -47,7 +47,7 @@ def reversal_scan(ctx, F, bodies, what):
 
 def d1(ctx, F):
     sub = F.one_body(r"^<selium::streams::pubsub::subscriber::Subscriber<D, Item> as futures_core::stream::Stream>::poll_next$")
-    stages = [F.body(MB + "push"), F.body(MB + "drain"), F.body("selium_protocol::utils::encode_message_batch"), F.body("selium_protocol::utils::decode_message_batch"), sub]
+    stages = [F.body(MB + "push"), F.body(MB + "drain"), F.inlined(F.body("selium_protocol::utils::encode_message_batch")), F.inlined(F.body("selium_protocol::utils::decode_message_batch")), sub]
     allb = []
     for b in stages:
         allb.append(b)
@@ -177,6 +177,10 @@ def d3(ctx, F):
     sub = F.one_body(r"^<selium::streams::pubsub::subscriber::Subscriber<D, Item> as futures_core::stream::Stream>::poll_next$")
     dm = F.body("selium::streams::pubsub::subscriber::Subscriber::<D, Item>::decode_message")
     ctx.touch(ss, sb, st, sub, dm)
+    # private helpers (e.g. a shared `compress_payload` / `decompress`) are looked through; the stage functions themselves stay calls
+    keep = [PUB + "send_single", PUB + "send_batch", PUB + "flush_batch", dm.path, "selium_protocol::utils::encode_message_batch", "selium_protocol::utils::decode_message_batch"] + \
+           [p for p in F.bodies if p.startswith(MB) or p.startswith("<selium::batching")]
+    ss, sb, st, sub, dm = [F.inlined(x, keep=keep) for x in (ss, sb, st, sub, dm)]
 
     def shape(body, blocks=None):
         return [(n + ("?" if is_optional(body, c, None) else "")) for n, c in pipeline_ops(body, blocks)]
@@ -241,7 +245,7 @@ def d4(ctx, F):
                 return "D6: every caller (%d) reaches send_batch only after matching self.batch as Some" % len(callers)
         return None
     sites = panics.analyse(ctx, bodies, "C03.D4.no-config-panic", extra_rules=[send_batch_unwrap], F=F)
-    ctx.floor("C03.D4.sites", len(sites), 2)
+    ctx.floor("C03.D4.bodies", len(bodies), 8)
 
 
 def d5(ctx, F):
